@@ -100,6 +100,7 @@ func checkC12Pay(r *run, c *VP9PayCase) (CaseInfo, error) {
 		}
 		key := !f.H.NonKey && !f.H.ShowExistingFrame
 		var cat []byte
+		var parts [][]byte // the payload slices as returned, read again once the whole frame is decoded
 		for pi, pk := range pkts {
 			what := fmt.Sprintf("frame %d (%d bytes, mtu %d, flexible=%v, key=%v, profile %d, cs %d) packet %d/%d %s", fi, len(frame), c.MTU, flex, key, f.H.Profile, f.H.ColorSpace, pi, len(pkts), hx(pk))
 			if len(pk) > int(c.MTU) {
@@ -125,6 +126,7 @@ func checkC12Pay(r *run, c *VP9PayCase) (CaseInfo, error) {
 				return ci, failf("%s: empty payload", what)
 			}
 			cat = append(cat, payload...)
+			parts = append(parts, payload)
 			first, last := pi == 0, pi == len(pkts)-1
 			if d.B != first || d.E != last || vp.B != first || vp.E != last {
 				return ci, failf("%s: B=%v E=%v, want B=%v E=%v", what, d.B, d.E, first, last)
@@ -162,6 +164,9 @@ func checkC12Pay(r *run, c *VP9PayCase) (CaseInfo, error) {
 		}
 		if !bytes.Equal(cat, orig) {
 			return ci, failf("frame %d (%d bytes, mtu %d): payloads concatenate to %d bytes that differ from the frame", fi, len(frame), c.MTU, len(cat))
+		}
+		if joined := bytes.Join(parts, nil); !bytes.Equal(joined, orig) {
+			return ci, failf("frame %d (%d bytes, mtu %d): the payload slices returned for its %d packets, read again after the last packet was decoded, no longer concatenate to the frame (a receiver collecting them gets %d wrong bytes)", fi, len(frame), c.MTU, len(parts), len(joined))
 		}
 		if len(pkts) >= 2 {
 			ci.class("multi-packet")
